@@ -2012,10 +2012,27 @@ func (cx *Ctx) derivedWriteGuards(r *Report, mods []string, rule string) int {
 				continue
 			}
 			args := map[string]bool{}
-			for _, a := range s.ci.Common().Args {
+			var addArg func(a ssa.Value, d int)
+			addArg = func(a ssa.Value, d int) {
 				if e := pureExpr(a, 0); e != "" {
 					args[e] = true
 				}
+				// the key handed over ready-made: KeyContract(token.Contract) is made of token.Contract
+				if d < 3 {
+					switch x := a.(type) {
+					case *ssa.Call:
+						if !x.Common().IsInvoke() && len(cx.transPrimKindsOfCall(x)) == 0 {
+							for _, b := range x.Common().Args {
+								addArg(b, d+1)
+							}
+						}
+					case *ssa.Convert:
+						addArg(x.X, d+1)
+					}
+				}
+			}
+			for _, a := range s.ci.Common().Args {
+				addArg(a, 0)
 			}
 			var ownKey func(v ssa.Value, d int) bool
 			ownKey = func(v ssa.Value, d int) bool {
@@ -2243,4 +2260,19 @@ func (cx *Ctx) exportFilterRule(r *Report, mods []string, rule string) int {
 		}
 	}
 	return n
+}
+
+// transPrimKindsOfCall: the primitive kinds below a static call (empty for a pure function).
+func (cx *Ctx) transPrimKindsOfCall(c *ssa.Call) map[string]bool {
+	f := c.Common().StaticCallee()
+	if f == nil {
+		if _, isB := c.Common().Value.(*ssa.Builtin); isB {
+			return nil
+		}
+		return map[string]bool{"?": true}
+	}
+	if f.Blocks == nil {
+		return nil
+	}
+	return cx.transPrimKinds(f)
 }
